@@ -915,6 +915,72 @@ func c10Navigation(c *Ctx, p *Prog, m *Model) {
 	} else {
 		r.Unk("R10.5", "Entry.forEachLogger", "-", "not found")
 	}
+	// lookup by name is by equality only: no branch of Sublogger / findSublogger (and the private helpers they reach)
+	// tests any other property of the name asked for (a separator inside it, its length, a prefix): names are free text
+	// (the package itself generates names with '/', '[' and digits)
+	if sl := p.Method(p.Slog, "Entry", "Sublogger"); sl != nil {
+		var other []string
+		for fn := range staticReach([]*ssa.Function{sl}, func(f *ssa.Function) bool { return f.Pkg != p.Slog }) {
+			for _, prm := range fn.Params {
+				if !isStringT(prm.Type()) {
+					continue
+				}
+				for _, b := range fn.Blocks {
+					iff := ifOf(b)
+					if iff == nil {
+						continue
+					}
+					// the condition is computed from the name itself (not from what a lookup of it returned)
+					seenV := map[ssa.Value]bool{}
+					var uses func(v ssa.Value, d int) bool
+					uses = func(v ssa.Value, d int) bool {
+						if v == nil || seenV[v] || d > 10 {
+							return false
+						}
+						seenV[v] = true
+						if v == ssa.Value(prm) {
+							return true
+						}
+						if call, isCall := v.(*ssa.Call); isCall {
+							if cal := calleeOf(call); cal != nil && cal.Pkg == p.Slog {
+								return false
+							}
+						}
+						in, isIn := v.(ssa.Instruction)
+						if !isIn {
+							return false
+						}
+						for _, op := range in.Operands(nil) {
+							if *op != nil && uses(*op, d+1) {
+								return true
+							}
+						}
+						return false
+					}
+					if !uses(iff.Cond, 0) {
+						continue
+					}
+					cond, _ := normCond(iff.Cond)
+					okEq := false
+					if bo, isB := cond.(*ssa.BinOp); isB && (bo.Op == token.EQL || bo.Op == token.NEQ) {
+						for _, side := range [][2]ssa.Value{{bo.X, bo.Y}, {bo.Y, bo.X}} {
+							if strip(side[0]) == ssa.Value(prm) {
+								if _, isN := isFieldLoadOf(strip(side[1]), "Entry", "name"); isN {
+									okEq = true
+								}
+							}
+						}
+					}
+					if !okEq {
+						other = append(other, shortName(fn)+" at "+p.Pos(instrPos(iff)))
+					}
+				}
+			}
+		}
+		sort.Strings(other)
+		r.Check(len(other) == 0, "R10.5", "Entry.Sublogger:by-equality", p.FuncPos(sl), "the name asked for is only ever compared with a logger's name",
+			"the lookup branches on a property of the name other than equality with a logger's name ("+strings.Join(other, "; ")+"): loggers whose names have that property (the kept children of WithSkip are named with '/') are no longer found by their name")
+	}
 	// findSublogger: returns the receiver when the name matches, otherwise searches items, otherwise nil
 	if fs := p.Method(p.Slog, "Entry", "findSublogger"); fs != nil {
 		rets, _ := exitBlocks(fs)
